@@ -60,9 +60,9 @@ static tOpcodeList const OpcodeList[256] = {
         /* 0x09 */
         { eImplicit, 1, 1,  "dex"},
         /* 0x0a */
-        { eImplicit, 0, 0,  "clv"},
+        { eImplicit, 0, 1,  "clv"},
         /* 0x0b */
-        { eImplicit, 0, 0,  "sev"},
+        { eImplicit, 0, 1,  "sev"},
         /* 0x0c */
         { eImplicit, 0, 1,  "clc"},
         /* 0x0d */
@@ -146,7 +146,7 @@ static tOpcodeList const OpcodeList[256] = {
         /* 0x34 */
         { eImplicit, 0, 0, "dess"},
         /* 0x35 */
-        { eImplicit, 0, 0,  "txs"},
+        { eImplicit, 0, 1,  "txs"},
         /* 0x36 */
         { eImplicit, 0, 1, "psha"},
         /* 0x37 */
@@ -420,9 +420,9 @@ static tOpcodeList const OpcodeList[256] = {
         /* 0xbd */
         { eExtended, 0, 3,  "jsr"},
         /* 0xbe */
-        { eExtended, 1, 0,  "lds"},
+        { eExtended, 1, 1,  "lds"},
         /* 0xbf */
-        { eExtended, 1, 0,  "sts"},
+        { eExtended, 1, 1,  "sts"},
         /* 0xc0 */
         {eImmediate, 0, 1, "subb"},
         /* 0xc1 */
